@@ -83,10 +83,11 @@ fn den(l: &Literal, t: &Ty, d: &Defs) -> Option<Val> {
         (Literal::ArrayRepeat(e, k), Ty::Array(et, n)) if k == n => Val::Array(vec![den(e, et, d)?; *n]),
         (Literal::Range(lo, hi, tag), Ty::Array(et, n)) => {
             let Ty::Int(it) = &**et else { return None };
-            if it.signed || *tag != utag(*it) || lo > hi || hi - lo != *n as u64 {
+            // (as in the language, a range is never empty)
+            if it.signed || *tag != utag(*it) || lo >= hi || hi - lo != *n as u64 {
                 return None;
             }
-            if *n > 0 && (*hi - 1) as i128 > it.max_val() {
+            if (*hi - 1) as i128 > it.max_val() {
                 return None;
             }
             Val::Array((*lo..*hi).map(|v| Val::Int(v as i128)).collect())
@@ -306,6 +307,11 @@ fn out_of_range_number(rng: &mut Rng, it: crate::ints::IntTy) -> String {
 fn mutate_literal(rng: &mut Rng, l: &Literal, t: &Ty, d: &Defs) -> (Literal, &'static str) {
     // pick a node: with some probability descend
     match (l, t) {
+        (Literal::Array(es), Ty::Array(et, 0)) if es.is_empty() && matches!(&**et, Ty::Int(it) if !it.signed) => {
+            let Ty::Int(it) = &**et else { unreachable!() };
+            let lo = rng.below(5);
+            (Literal::Range(lo, lo, utag(*it)), "empty range literal for an array of size 0")
+        }
         (Literal::Array(es), Ty::Array(et, n)) if !es.is_empty() => match rng.below(6) {
             0 => {
                 let mut es = es.clone();
